@@ -334,6 +334,9 @@ func nameScanBefore(fn *ssa.Function, insert ssa.Instruction, m, nameF *types.Va
 			continue
 		}
 		found := func(v ssa.Value) bool {
+			if h.Signature.Results().Len() == 1 {
+				return core.Canon(v) == ssa.Value(cv)
+			}
 			e, ok := core.Canon(v).(*ssa.Extract)
 			return ok && e.Tuple == ssa.Value(cv) && e.Index == bi
 		}
